@@ -9,16 +9,18 @@
              9 Migrate     (one run of migrateDefaultQuotaGroupsPod)
    observable: the summaries after every operation (format of Codec.v). *)
 From Coq Require Import List ZArith Bool.
-From Verif Require Import Lib.Wire Lib.Vec2 C01.Model C01.Spec C01.Codec C01.Plugin.
+From Verif Require Import Lib.Wire Lib.VecN C01.Dim2 C01.Model C01.Spec C01.Codec C01.Plugin.
 Import ListNotations.
 Open Scope Z_scope.
 
+Local Existing Instance D2.
+
 Definition dec_pop (r : list Z) : pop :=
   let a := fun i => nthZ r i in
-  let sp := mkQ (a 1%nat) (a 2%nat) (zb (a 3%nat)) (zb (a 4%nat)) (a 5%nat, a 6%nat) (a 7%nat, a 8%nat) in
+  let sp := dec_qshape r in
   match a 0%nat with
   | 1 => PlPodAdd (mkPP (dec_pod r 2) (a 1%nat))
-  | 2 => PlPodUpdate (mkPP (dec_pod r 3) (a 1%nat)) (mkPP (dec_pod r 9) (a 2%nat))
+  | 2 => PlPodUpdate (mkPP (dec_pod r 3) (a 1%nat)) (mkPP (dec_pod r (3 + pod_len)) (a 2%nat))
   | 3 => PlPodDelete (mkPP (dec_pod r 2) (a 1%nat))
   | 6 => PlQuotaAdd sp
   | 7 => PlQuotaUpdate sp
@@ -29,14 +31,11 @@ Definition dec_pop (r : list Z) : pop :=
 Fixpoint dec_pops (k : nat) (l : list Z) : list pop :=
   match k with
   | O => []
-  | S k' => dec_pop (firstn 15 l) :: dec_pops k' (skipn 15 l)
+  | S k' => dec_pop (firstn rec_len l) :: dec_pops k' (skipn rec_len l)
   end.
 
 Definition pdecode (inp : list Z) : vec * vec * list pop :=
-  match inp with
-  | a :: b :: c :: d :: k :: t => ((a, b), (c, d), dec_pops (Z.to_nat k) t)
-  | _ => (vzero, vzero, [])
-  end.
+  (dec_vec inp 0, dec_vec inp dim, dec_pops (Z.to_nat (nthZ inp (2 * dim))) (skipn (2 * dim + 1) inp)).
 
 Definition run_case (inp : list Z) : list Z :=
   let '(sm, dm, ops) := pdecode inp in
